@@ -31,6 +31,14 @@ def gen_cells(rng, columns=None, players=None, measures=None, keysounds=None, de
                         row.append(["0", None])
                 mm.append(row)
             pm.append(mm)
+        if len(pm) >= 2 and rng.random() < 0.25:
+            # the same measure again, character for character, after one or more empty measures
+            src = rng.randrange(len(pm))
+            gap = rng.randint(0, 2)
+            rows = len(pm[src])
+            for _ in range(gap):
+                pm.append([[["0", None] for _ in range(columns)] for _ in range(rows if rng.random() < 0.5 else 4)])
+            pm.append([[list(c) for c in row] for row in pm[src]])
         cells.append(pm)
     return cells
 
